@@ -41,6 +41,7 @@ type Probe struct {
 	// InLen >= 0: the remaining input is computed from the input length (base position 1),
 	// independently of the library's Reader.Remaining
 	InLen int
+	Base  int // base position of the parsed file (default 1)
 }
 
 type snap struct {
@@ -201,6 +202,8 @@ func Build(g *Grammar, o BuildOpts) *Built {
 			p = seq(combinator.SepBy1(kids[0], kids[1]))
 		case KSuppress:
 			p = combinator.SuppressError(kids[0])
+		case KSingle:
+			p = combinator.Single(kids[0])
 		case KLTrim:
 			p = text.LeftTrim(kids[0], text.WsMode(e.Mode))
 		case KRTrim:
@@ -246,7 +249,11 @@ func Build(g *Grammar, o BuildOpts) *Built {
 					}
 					rem := ctx.Reader().Remaining(pos)
 					if probe.InLen >= 0 {
-						rem = probe.InLen - (int(pos) - 1)
+						base := probe.Base
+						if base == 0 {
+							base = 1
+						}
+						rem = probe.InLen - (int(pos) - base)
 					}
 					if d-(rem+2) > probe.MaxSlack {
 						probe.MaxSlack = d - (rem + 2)
@@ -379,4 +386,14 @@ func cloneResult(p parsley.Parser) parsley.Parser {
 		}
 		return n, cp, err
 	})
+}
+
+// NewCtxAt places the input file after a file of preLen bytes (preLen 0: alone, base 1).
+func NewCtxAt(input string, preLen int) (*parsley.Context, *text.File, int) {
+	f := text.NewFile("f", []byte(input))
+	if preLen <= 0 {
+		return parsley.NewContext(parsley.NewFileSet(f), text.NewReader(f)), f, 1
+	}
+	fs := parsley.NewFileSet(text.NewFile("pre", []byte(strings.Repeat("x", preLen))), f)
+	return parsley.NewContext(fs, text.NewReader(f)), f, preLen + 2
 }
